@@ -1,1 +1,5 @@
-import Pyx12Verif.Model.Validation
+import Pyx12Verif.Props.C12
+open Pyx12Verif.C12
+#print axioms reencode_invariant
+#print axioms read_encoded
+#print axioms reencode_invariant_reader
